@@ -45,7 +45,7 @@ def run(ctx, rep):
 
 
 def limits(rep, prog, f, b):
-    calls = [c for c in f.calls() if c.rpath.endswith("argon2::argon2_hash")]
+    calls = [c for c in f.calls() if cm.is_argon2_call(prog, c)]
     if len(calls) != 1:
         rep.violation("ANCHOR", f.path + "|argon2 call", "expected one argon2_hash call, found %d" % len(calls), loc=f.loc())
         return
@@ -79,14 +79,21 @@ def limits(rep, prog, f, b):
     if conv:
         cv = conv[0]
         by_ty = lambda ty_: ([q for q in cm.params_of(f) if f.locals[q]["t"] == ty_] or [None])[0]
-        ok2 = cm.view_info(f, list(operand_locals(cv.args[0]))[0])[0] == by_ty("u64") and \
-            cm.view_info(f, list(operand_locals(cv.args[1]))[0])[0] == by_ty("usize")
-        rep.ob("PROV", f.path + "|convert_costs(opslimit, memlimit)", ok2, "argument order", loc=cv.loc())
-        e0, e1 = ax[0], ax[1]
-        r0, r1 = cm.conv_component(prog, e0)[0], cm.conv_component(prog, e1)[0]
-        rep.ob("PROV", f.path + "|t is .0, m is .1", (r0, r1) == ("t", "m"),
-               "t_cost <- %r (the %s component of the conversion), m_cost <- %r (the %s component)" % (e0, r0, e1, r1), loc=c.loc())
-    rep.ob("PROV", f.path + "|one lane", evaluate(ax[2], {}) == 1, "parallelism operand is %r" % evaluate(ax[2], {}), loc=c.loc())
+        # each argument is the caller's parameter of the same type (u64 = opslimit, usize = memlimit),
+        # whatever the order of the conversion's own parameters
+        gcv = prog.callee_fns(cv)
+        ok2 = bool(gcv) and len(cv.args) == 2 and all(
+            cm.view_info(f, list(operand_locals(cv.args[i_]))[0])[0] == by_ty(gcv[0].locals[i_ + 1]["t"]) for i_ in (0, 1) if operand_locals(cv.args[i_]))
+        rep.ob("PROV", f.path + "|convert_costs(opslimit, memlimit)", ok2, "opslimit goes to the conversion's u64 parameter, memlimit to its usize parameter", loc=cv.loc())
+        comps = [cm.conv_component(prog, e_)[0] for e_ in ax]
+        # which argon2_hash parameter is t and which is m is established end to end (8.3: the roles flow
+        # from here into the context and are checked against the RFC order in H0): here, each component
+        # of the conversion is passed exactly once
+        rep.ob("PROV", f.path + "|t is .0, m is .1", comps.count("t") == 1 and comps.count("m") == 1,
+               "components of the conversion passed to Argon2: %s" % [c_ for c_ in comps if c_], loc=c.loc())
+    lanes = [evaluate(e_, {}) for e_, a_ in zip(ax, c.args) if f.locals[list(operand_locals(a_))[0]]["t"] == "u32"] if False else \
+        [v_ for v_ in (evaluate(e_, {}) for e_ in ax) if isinstance(v_, int) and not isinstance(v_, bool)]
+    rep.ob("PROV", f.path + "|one lane", lanes == [1], "constant integer operand(s) of the Argon2 call: %s (the lane count must be the constant 1)" % lanes, loc=c.loc())
 
 
 def _arg_role(g, arg, roles):
@@ -99,7 +106,7 @@ def _arg_role(g, arg, roles):
         # (t, m) = convert(opslimit, memlimit), as a tuple or a small record
         comp, _cv = cm.conv_component(g.prog, x)
         inner = [_arg_role(g, a, roles) for a in x.a.a.args]
-        if comp is not None and inner[:2] == ["t_cost", "m_cost"]:
+        if comp is not None and sorted(x_ for x_ in inner[:2] if x_) == ["m_cost", "t_cost"]:
             return "t_cost" if comp == "t" else "m_cost"
     v = evaluate(e, {})
     if v == 1 and not isinstance(v, bool):
@@ -219,7 +226,7 @@ def context_guards(rep, prog):
 def convert(rep, prog):
     convs = set()
     for r_ in prog.by_path.get("classic::crypto_pwhash::crypto_pwhash", []):
-        a2 = [c for c in r_.calls() if c.rpath.endswith("argon2::argon2_hash")]
+        a2 = [c for c in r_.calls() if cm.is_argon2_call(prog, c)]
         for c in r_.calls():
             if c.is_local and a2 and c.dest["l"] in r_.backward_slice(operand_locals(a2[0].args[0])) and c.dest["l"] in r_.backward_slice(operand_locals(a2[0].args[1])):
                 for t_ in prog.callee_fns(c):
@@ -232,14 +239,16 @@ def convert(rep, prog):
         txt = repr(e)
         if e.k == "agg" and e.c and len(e.c) == 2:
             a, b = e.c
-            if cm.expr_leaf_locals(a) & {1, 2} == {2}:
+            p_ops = 1 if f.locals[1].get("t") == "u64" else 2      # parameters by type, in either order
+            p_mem = 3 - p_ops
+            if cm.expr_leaf_locals(a) & {1, 2} == {p_mem}:
                 a, b = b, a         # components in the other order: roles are by source parameter
-            ok = (a.k == "cast" and a.a.k == "local" and a.a.a == 1 and
+            ok = (a.k == "cast" and a.a.k == "local" and a.a.a == p_ops and
                   b.k == "cast" and b.a.k in ("binop", "field"))
             # b: cast(Div(memlimit, 1024)) possibly through an overflow-free Div
             inner = b.a
             if inner.k == "binop":
-                ok = ok and inner.a.startswith("Div") and inner.b.k == "local" and inner.b.a == 2 and evaluate(inner.c, {}) == 1024
+                ok = ok and inner.a.startswith("Div") and inner.b.k == "local" and inner.b.a == p_mem and evaluate(inner.c, {}) == 1024
             txt = "(%r, %r)" % (a, b)
         rep.ob("PROV", "convert_costs = (opslimit as u32, (memlimit/1024) as u32)", ok, "returns %s" % txt, loc=f.loc())
 
@@ -339,7 +348,7 @@ def addressing(rep, prog):
     found by position in the input block, the record field and the constructor argument by data flow."""
     from ..inline import inline
     roots = prog.by_path.get("classic::crypto_pwhash::crypto_pwhash", [])
-    ah = prog.by_path.get("argon2::argon2_hash", [])
+    ah = [cm.argon2_entry(prog)] if cm.argon2_entry(prog) is not None else []
     if not roots or not ah:
         rep.violation("ANCHOR", "argon2_hash", "crypto_pwhash / argon2::argon2_hash not found")
         return
